@@ -5,6 +5,7 @@ connection_lost / eof_received over the ASH receiver model; batches of primitive
 -/
 import BV.Model.Stack.Reset
 import BV.Props.C04
+import BV.Proofs.Src.Uart
 namespace BV.Props.C11
 open BV.Reset BV.Ash BV.Gen.Ash
 
@@ -324,5 +325,103 @@ theorem c11_invariant (s : GW) (h : Inv s) (batch : List Prim) : Inv (step s bat
 
 example : (step (step {} [.reset 1]).1 [.frame (.rstack 2 11), .lost true]).2 =
     [.connDone true, .appLost, .resetDone 1 .ok] := by decide +kernel
+
+/-! ### the same statements over the definitions generated from bellows/uart.py (BV/Gen/SrcUart.lean)
+
+`Gateway.reset_received`, `error_received`, `connection_lost`, `eof_received` are translated from the syntax tree on every
+run; `BV.Proofs.Src.Uart` proves them equal to the primitives `resetReceived` / `connectionLost` used above (futures in a
+heap, `WF` = ids valid and distinct, the connection-done future pending while the attribute holds it). -/
+section Src
+open BV.Py BV.Src.Uart BV.Proofs.Src.Uart
+
+/-- the translated `Gateway.reset_received` *is* the model's `resetReceived`, on every well-formed gateway object -/
+theorem c11_src_reset_received (g : Gateway) (s : GW) (code : Nat) (hw : WF g) (hr : Rel g s) :
+    ∃ g', Gateway.reset_received code g = (.ok (), g') ∧ WF g' ∧ Rel g' (resetReceived s code).1 ∧
+      g'.trace = g.trace ++ ((resetReceived s code).2.flatMap (evOf none)) :=
+  let ⟨g', h1, h2, h3, h4, _⟩ := reset_received_eq g s code hw hr
+  ⟨g', h1, h2, h3, h4⟩
+
+/-- **only the software-reset acknowledgement completes the request** (source level): with a reset request pending,
+`reset_received(RESET_SOFTWARE)` resolves exactly that future and tells the application nothing; any other code leaves
+every future alone and reports an NCP failure with that code -/
+theorem c11_src_only_software_rstack (g : Gateway) (code i : Nat) (hw : WF g) (hi : g.reset_future = some i)
+    (hp : fget g.futs i = .pending) :
+    (code = 11 → ∃ g', Gateway.reset_received code g = (.ok (), g') ∧ absF (fget g'.futs i) = .result ∧ g'.trace = g.trace ∧
+        g'.reset_future = some i) ∧
+    (code ≠ 11 → Gateway.reset_received code g = (.ok (), { g with trace := g.trace ++ [.appEnterFailed code] })) := by
+  have h11 : BV.Gen.Ash.resetSoftware = 11 := by decide
+  constructor
+  · intro hc
+    obtain ⟨g', e, -, hr', ht, hrf, -⟩ := reset_received_eq g (absG g) code hw (rel_absG g)
+    refine ⟨g', e, ?_, ?_, hrf.trans hi⟩
+    · have hw' := hr'.w i (hrf.trans hi)
+      have hm : (resetReceived (absG g) code).1.waitFut = .result := by
+        simp [resetReceived, hc, h11, absG, hi, hp, cell, absF]
+      rw [hm] at hw'
+      exact hw'.symm
+    · have : (resetReceived (absG g) code).2 = [] := by simp [resetReceived, hc, h11, absG, hi, hp, cell, absF]
+      simpa [this] using ht
+  · intro hc
+    obtain ⟨rf, sf, cf, cdf, tr, futs, trace⟩ := g
+    simp [Gateway.reset_received, hc, bind, PyM.bind, gemit, PyM.modify, pure, PyM.pure]
+
+/-- an ERROR frame's code goes to the application as a failure; no future is touched (source level) -/
+theorem c11_src_error_is_failure (g : Gateway) (code : Nat) :
+    Gateway.error_received code g = (.ok (), { g with trace := g.trace ++ [.appEnterFailed code] }) :=
+  error_received_eq g code
+
+/-- the translated `Gateway.connection_lost` *is* the model's `connectionLost` -/
+theorem c11_src_connection_lost (g : Gateway) (s : GW) (exc : Option ExcVal) (hw : WF g) (hr : Rel g s) :
+    (Gateway.connection_lost exc g).1 = .ok () ∧ WF (Gateway.connection_lost exc g).2 ∧
+    Rel (Gateway.connection_lost exc g).2 (connectionLost s exc.isSome).1 ∧
+    (Gateway.connection_lost exc g).2.trace = g.trace ++ ((connectionLost s exc.isSome).2.flatMap (evOf exc)) :=
+  let ⟨h1, h2, h3, h4, _⟩ := connection_lost_eq g s exc hw hr
+  ⟨h1, h2, h3, h4⟩
+
+/-- **`connection_lost` and `eof_received` never raise, release every waiter and clear both attributes** (source level):
+afterwards the future a reset waiter holds and the start-up future are resolved (with the connection error if they were
+still pending, untouched otherwise), and the connection-done future carries the reason -/
+theorem c11_src_connection_lost_releases (g : Gateway) (exc : Option ExcVal) (hw : WF g) :
+    (Gateway.connection_lost exc g).1 = .ok () ∧
+    (Gateway.eof_received g).1 = .ok () ∧
+    (Gateway.connection_lost exc g).2.reset_future = none ∧
+    (Gateway.connection_lost exc g).2.connection_done_future = none ∧
+    (∀ i, g.reset_future = some i → fget (Gateway.connection_lost exc g).2.futs i ≠ .pending) ∧
+    (∀ j, g.startup_reset_future = some j → fget (Gateway.connection_lost exc g).2.futs j ≠ .pending) ∧
+    (∀ k, g.connection_done_future = some k → fget (Gateway.connection_lost exc g).2.futs k = .resultExc exc) := by
+  obtain ⟨h1, h2, h3, -, h5, h6, h7, h8, h9⟩ := connection_lost_eq g (absG g) exc hw (rel_absG g)
+  have he := (connection_lost_eq g (absG g) (some .connectionReset) hw (rel_absG g)).1
+  refine ⟨h1, by rw [eof_received_eq]; exact he, h5, h6, ?_, ?_, h9⟩
+  · intro i hi hp
+    have := h8 i hi
+    rw [hp, connectionLost_waitFut] at this
+    simp only [absG, hi, cell, absF_p] at this
+    by_cases hq : absF (fget g.futs i) = .pending <;> simp [hq] at this
+  · intro j hj hp
+    have hst := h3.st
+    rw [h7, hj] at hst
+    simp only [cell, hp, absF_p] at hst
+    rw [connectionLost_startupFut] at hst
+    simp only [absG, hj, cell] at hst
+    by_cases hq : absF (fget g.futs j) = .pending <;> simp [hq] at hst
+
+/-- non-vacuity: a gateway with a reset request, a start-up waiter and the connection-done future, all pending, is
+well formed; losing the connection resolves all three and tells the application -/
+example : WF ({ reset_future := some 0, startup_reset_future := some 1, connection_done_future := some 2,
+                futs := [.pending, .pending, .pending] } : Gateway) := by
+  rw [WF_iff]; simp
+
+example : Gateway.connection_lost (some (.other 7))
+      { reset_future := some 0, startup_reset_future := some 1, connection_done_future := some 2,
+        futs := [.pending, .pending, .pending] } =
+    (.ok (), { reset_future := none, startup_reset_future := some 1, connection_done_future := none,
+               futs := [.exc (.other 7), .exc (.other 7), .resultExc (some (.other 7))],
+               trace := [.appConnectionLost (some (.other 7))] }) := by decide +kernel
+
+example : (Gateway.reset_received 11 { reset_future := some 0, futs := [.pending] }).2.futs = [.result] := by decide +kernel
+example : (Gateway.reset_received 2 { reset_future := some 0, futs := [.pending] }).2.trace = [.appEnterFailed 2] := by
+  decide +kernel
+
+end Src
 
 end BV.Props.C11
